@@ -75,6 +75,15 @@ def make(case):
                 kw["min"] = float(s[a])
             if rng.random() < .5:
                 kw["max"] = float(s[b])
+    if rng.random() < .08 and "nperbin" not in kw:
+        # data (and later y) that equal the empty-bin sentinel itself, -9999, the customary missing-value flag: several
+        # in one bin, and a pair straddling it whose mean is exactly -9999
+        data = np.concatenate([np.asarray(data, dtype="f8"), np.full(int(rng.integers(2, 6)), -9999.0), [-10000.5, -9997.5][: int(rng.integers(0, 3))]])
+        kw = {k: v for k, v in kw.items() if k not in ("min", "max", "nbin")}
+        kw["binsize"] = float(rng.choice([1.0, 4.0, 2500.0]))
+        if kw["binsize"] < 100:
+            data = data[(data < -9000) | (data > -9000 + 0)][:]          # keep the number of bins small:
+            data = data[data < -9900] if rng.random() < .7 else np.concatenate([data[data < -9900], data[data >= -9900][:5] * 0 - 9990.0])
     n = data.size
     wmode = ["none", "equal", "spread", "zeros"][int(rng.integers(0, 4))]
     w = None
@@ -88,6 +97,8 @@ def make(case):
     y = None
     if rng.random() < .5:
         y = rng.normal(size=n) * 10.0 ** rng.integers(-2, 3) + rng.integers(-5, 5)
+        if rng.random() < .1:
+            y[:] = -9999.0              # a second variable that is the sentinel value throughout
     return data, y, w, kw, wmode
 
 
